@@ -3,6 +3,7 @@
 package collect
 
 import (
+	"context"
 	"fmt"
 	"math"
 	"math/bits"
@@ -15,8 +16,12 @@ import (
 
 	"github.com/dgryski/go-wyhash"
 	"github.com/honeycombio/refinery/config"
+	"github.com/honeycombio/refinery/internal/peer"
 	"github.com/honeycombio/refinery/internal/verifkit"
 	"github.com/honeycombio/refinery/logger"
+	"github.com/honeycombio/refinery/metrics"
+	"github.com/honeycombio/refinery/pubsub"
+	"github.com/jonboulle/clockwork"
 )
 
 // C10 (unit "collect"): stress-relief sampling is a pure, nested function of
@@ -72,12 +77,97 @@ func (e *c10HookEntry) Logf(string, ...interface{}) {
 	}
 }
 
-func c10NewReloadable(rate uint64) (*StressRelief, *config.MockConfig, *c10HookLogger) {
-	cfg := &config.MockConfig{StressRelief: config.StressReliefConfig{Mode: "always", SamplingRate: rate}}
-	hl := &c10HookLogger{}
-	s := &StressRelief{Config: cfg, Logger: hl}
-	s.UpdateFromConfig()
-	return s, cfg, hl
+// c10Live is a started StressRelief (real Start, Recalc and UpdateFromConfig) whose stress
+// level is driven through the metrics it reads, on a fake clock.
+type c10Live struct {
+	s     *StressRelief
+	cfg   *config.MockConfig
+	hl    *c10HookLogger
+	mm    *metrics.MockMetrics
+	clock *clockwork.FakeClock
+}
+
+type c10Bus struct{}
+type c10Sub struct{}
+
+func (c10Sub) Close()                                               {}
+func (c10Bus) Publish(context.Context, string, string) error        { return nil }
+func (c10Bus) FormatTopic(t string) string                          { return "c10:" + t }
+func (c10Bus) Close()                                               {}
+func (c10Bus) Start() error                                         { return nil }
+func (c10Bus) Stop() error                                          { return nil }
+func (c10Bus) Subscribe(context.Context, string, pubsub.SubscriptionCallback) pubsub.Subscription {
+	return c10Sub{}
+}
+
+type c10Health struct{}
+
+func (c10Health) Register(string, time.Duration) {}
+func (c10Health) Unregister(string)              {}
+func (c10Health) Ready(string, bool)             {}
+
+const c10MinActive = 10 * time.Second
+
+func c10NewLive(rate uint64, mode string) *c10Live {
+	l := &c10Live{
+		cfg: &config.MockConfig{StressRelief: config.StressReliefConfig{Mode: mode, ActivationLevel: 90, DeactivationLevel: 75,
+			SamplingRate: rate, MinimumActivationDuration: config.Duration(c10MinActive)}},
+		hl:    &c10HookLogger{},
+		mm:    &metrics.MockMetrics{},
+		clock: clockwork.NewFakeClock(),
+	}
+	l.mm.Start()
+	l.mm.Store(DENOMINATOR_INCOMING_CAP, 1000)
+	l.mm.Store(DENOMINATOR_PEER_CAP, 1000)
+	l.mm.Store(DENOMINATOR_MEMORY_MAX_ALLOC, 1<<30)
+	l.s = &StressRelief{RefineryMetrics: l.mm, Config: l.cfg, Logger: l.hl, Health: c10Health{}, PubSub: c10Bus{},
+		Peer: peer.NewMockPeers([]string{"http://c10:8081"}, "http://c10:8081"), Clock: l.clock, Done: make(chan struct{})}
+	l.s.disableStressLevelReport = true // the driver calls Recalc itself
+	if err := l.s.Start(); err != nil {
+		panic("verif harness: StressRelief.Start: " + err.Error())
+	}
+	l.s.UpdateFromConfig()
+	return l
+}
+
+// load puts the incoming queue at the given fraction of its capacity and recalculates.
+func (l *c10Live) load(fraction float64) {
+	l.mm.Gauge(NUMERATOR_INCOMING_QUEUE, 1000*fraction)
+	l.s.Recalc()
+}
+
+// activate drives the node over ActivationLevel (mode monitor) / lets Recalc switch relief on (always).
+func (l *c10Live) activate() { l.load(1) }
+
+// calm drops the load and lets the minimum activation duration pass.
+func (l *c10Live) calm() {
+	l.load(0)
+	l.clock.Advance(c10MinActive + time.Second)
+	l.s.Recalc()
+}
+
+func (l *c10Live) reload(rate uint64) {
+	c10SetRate(l.cfg, rate)
+	l.s.UpdateFromConfig()
+}
+
+// c10NewMaybeActive: a StressRelief at the given rate; 15% of them reached that rate by a
+// reload from another rate while relief was active (Mode always, or monitor over ActivationLevel).
+func c10NewMaybeActive(rng *verifkit.Rand, rate uint64) (*StressRelief, string) {
+	if !rng.Chance(0.15) {
+		return c10NewStressRelief(rate), "fresh"
+	}
+	mode := verifkit.Pick(rng, "always", "monitor")
+	l := c10NewLive(c10SRGenRate(rng), mode)
+	l.activate()
+	kind := "reloaded-while-active/" + mode
+	if rng.Chance(0.25) { // relief ended and came back before the reload
+		l.calm()
+		l.activate()
+		kind += "/reactivated"
+	}
+	l.reload(rate)
+	return l.s, kind
 }
 
 func c10SetRate(cfg *config.MockConfig, rate uint64) {
@@ -161,12 +251,15 @@ func TestVerif_C10(t *testing.T) {
 	run.Cases("pair", run.N(20000, 2000000), func(i int, rng *verifkit.Rand) {
 		id, idc := c10SRGenID(rng)
 		rate := c10SRGenRate(rng)
-		a := c10NewStressRelief(rate)
-		b := c10NewStressRelief(rate)
+		a, akind := c10NewMaybeActive(rng, rate)
+		b, bkind := c10NewMaybeActive(rng, rate)
 		r1, k1 := c10SRDecide(a, id)
 		r2, k2 := c10SRDecide(a, id)
 		r3, k3 := c10SRDecide(b, id)
-		wit := map[string]any{"trace_id": id, "rate": fmt.Sprint(rate), "first": fmt.Sprint(r1, k1), "again": fmt.Sprint(r2, k2), "other_instance": fmt.Sprint(r3, k3)}
+		if akind != "fresh" || bkind != "fresh" {
+			run.Count("pair_instances_reloaded_while_relief_active", 1)
+		}
+		wit := map[string]any{"trace_id": id, "rate": fmt.Sprint(rate), "instance": akind, "other_instance_kind": bkind, "first": fmt.Sprint(r1, k1), "again": fmt.Sprint(r2, k2), "other_instance": fmt.Sprint(r3, k3)}
 		if r1 != r2 || k1 != k2 {
 			run.Violation("C10/stress-relief/same-instance-disagrees", "two calls on one StressRelief disagree for the same (id, rate)", wit)
 		}
@@ -213,7 +306,8 @@ func TestVerif_C10(t *testing.T) {
 		sort.Slice(rates, func(a, b int) bool { return rates[a] < rates[b] })
 		keeps := make([]bool, len(rates))
 		for j, r := range rates {
-			_, keeps[j] = c10SRDecide(c10NewStressRelief(r), id)
+			inst, _ := c10NewMaybeActive(rng, r)
+			_, keeps[j] = c10SRDecide(inst, id)
 		}
 		run.Count("decisions", int64(len(rates)))
 		highestKept := -1
@@ -290,10 +384,13 @@ func TestVerif_C10(t *testing.T) {
 		rate uint
 		keep bool
 	}
-	run.Cases("reload", run.N(40, 600), func(i int, rng *verifkit.Rand) {
+	run.Cases("reload", run.N(60, 900), func(i int, rng *verifkit.Rand) {
 		reloadRates := []uint64{0, 1, 2, 2, 3, 3, 5, 10, 10, 100, 1000, 1 << 16, 1 << 32, 1 << 63, math.MaxUint64}
 		first := reloadRates[rng.Intn(len(reloadRates))]
-		s, cfg, hl := c10NewReloadable(first)
+		mode := verifkit.Pick(rng, "always", "always", "monitor", "monitor", "monitor", "never")
+		live := c10NewLive(first, mode)
+		s, hl := live.s, live.hl
+		hist := []string{fmt.Sprintf("start mode=%s rate=%d", mode, first)}
 		configured := map[uint64]bool{first: true}
 		if first == 0 {
 			configured[1] = true
@@ -332,7 +429,7 @@ func TestVerif_C10(t *testing.T) {
 					default:
 					}
 					record(readBatch(n*7 + w))
-					if n > 4000 {
+					if n > 600 {
 						return
 					}
 				}
@@ -358,30 +455,75 @@ func TestVerif_C10(t *testing.T) {
 		}
 		hl.hook.Store(&hook)
 		prev := first
-		for step := 0; step < 6; step++ {
-			next := reloadRates[rng.Intn(len(reloadRates))]
-			configured[next] = true
-			if next == 0 {
-				configured[1] = true
+		// quiescent check after every step: the rate in force is the configured one and keep
+		// is the threshold decision for it, whatever state relief is in.
+		quiescent := func(step int) {
+			want := prev
+			if want == 0 {
+				want = 1
 			}
-			c10SetRate(cfg, next)
-			s.UpdateFromConfig()
-			// after the reload returned, the new rate is in force
 			for _, d := range readBatch(step) {
-				want := next
-				if want == 0 {
-					want = 1
-				}
 				if uint64(d.rate) != want {
-					run.Violation("C10/stress-relief/reload/stale-rate-after-reload", fmt.Sprintf("UpdateFromConfig returned with SamplingRate %d but GetSampleRate reports %d", next, d.rate),
-						map[string]any{"previous_rate": fmt.Sprint(prev), "new_rate": fmt.Sprint(next), "trace_id": d.id})
+					run.Violation("C10/stress-relief/reload/stale-rate-after-reload", fmt.Sprintf("SamplingRate %d is configured and UpdateFromConfig returned, but GetSampleRate reports %d", prev, d.rate),
+						map[string]any{"history": hist, "trace_id": d.id, "relief_active": s.Stressed()})
+					break
+				}
+				if wk := c10SRModelKeep(d.id, uint64(d.rate)); d.keep != wk {
+					sig := "C10/stress-relief/reload/quiescent-keep-inconsistent-with-returned-rate"
+					run.Violation(sig, fmt.Sprintf("after the history below GetSampleRate returns rate %d with keep=%v for a trace the threshold rule for rate %d decides %v (relief active: %v)", d.rate, d.keep, d.rate, wk, s.Stressed()),
+						map[string]any{"history": hist, "trace_id": d.id, "returned_rate": fmt.Sprint(d.rate), "keep": d.keep, "model_keep": wk, "relief_active": s.Stressed()})
 					break
 				}
 			}
-			record(readBatch(step))
-			run.Nontrivial(fmt.Sprintf("reload:%s->%s", c10SRRateClass(prev), c10SRRateClass(next)))
-			prev = next
 		}
+		if mode != "never" && rng.Chance(0.8) {
+			live.activate()
+			hist = append(hist, fmt.Sprintf("load 100%% + Recalc -> active=%v", s.Stressed()))
+		}
+		reloads, reloadsWhileActive, reactivations := 0, 0, 0
+		wasActive, everEnded := s.Stressed(), false
+		steps := rng.Range(6, 12)
+		for step := 0; step < steps; step++ {
+			switch k := rng.Intn(10); {
+			case k < 5 || step == 0:
+				next := reloadRates[rng.Intn(len(reloadRates))]
+				configured[next] = true
+				if next == 0 {
+					configured[1] = true
+				}
+				active := s.Stressed()
+				live.reload(next)
+				reloads++
+				if active {
+					reloadsWhileActive++
+				}
+				hist = append(hist, fmt.Sprintf("reload SamplingRate %d -> %d (relief active: %v)", prev, next, active))
+				run.Nontrivial(fmt.Sprintf("reload:%s:%v:%s->%s", mode, active, c10SRRateClass(prev), c10SRRateClass(next)))
+				prev = next
+			case k < 7:
+				live.activate()
+				hist = append(hist, fmt.Sprintf("load 100%% + Recalc -> active=%v", s.Stressed()))
+			case k < 9:
+				live.calm()
+				hist = append(hist, fmt.Sprintf("load 0%% + %v + Recalc -> active=%v", c10MinActive+time.Second, s.Stressed()))
+			default:
+				live.load(verifkit.Pick(rng, 0.3, 0.6, 0.7, 0.85))
+				hist = append(hist, fmt.Sprintf("partial load + Recalc -> active=%v", s.Stressed()))
+			}
+			now := s.Stressed()
+			if wasActive && !now {
+				everEnded = true
+			}
+			if !wasActive && now && everEnded {
+				reactivations++
+			}
+			wasActive = now
+			quiescent(step)
+			record(readBatch(step))
+		}
+		run.Count("reload_reloads", int64(reloads))
+		run.Count("reload_reloads_while_relief_active", int64(reloadsWhileActive))
+		run.Count("reload_relief_reactivations", int64(reactivations))
 		hl.hook.Store(nil)
 		close(stop)
 		joined := make(chan struct{})
@@ -392,7 +534,6 @@ func TestVerif_C10(t *testing.T) {
 			run.Inconclusive("reload phase: reader goroutines did not finish within 30s")
 			return
 		}
-		run.Count("reload_reloads", 6)
 		run.Count("reload_log_calls_hooked", atomic.LoadInt64(&hooks))
 		run.Count("reload_reader_batches_finished_inside_a_log_call", atomic.LoadInt64(&inside))
 		mu.Lock()
